@@ -333,6 +333,11 @@ def replay(ctx, rec):
     env = Env(b["lib"], b["src"])
     st = Stats()
     cache = {}
+    if "macro" not in c:       # exact-edge finding: the four sub-shell answers at the energy of one edge
+        exact_edges(st, env, c["Z"], cache)
+        for v in st.violations:
+            print("replay:", v)
+        return not st.violations
     z, m, E, fn = c["Z"], c["macro"], c["E"], c["fn"]
     aw = env.q("AtomicWeight", z) if 1 <= z <= env.h.val["ZMAX"] else None
     if "Shell" in fn:
@@ -343,7 +348,7 @@ def replay(ctx, rec):
         label = env.name_of_line.get(m)
         e = expect_line(env, z, label, E, cache)
     if fn.startswith("CSb") and e is not None:
-        e = (e[0] * aw / env.avog, e[1]) if aw else None
+        e = ((e[0] * aw / env.avog,) + tuple(e[1:])) if aw else None
     judge(st, env, fn, z, m, E, e, label, 1e-12 if label == "LB" else TOL)
     for v in st.violations:
         print("replay:", v)
